@@ -714,6 +714,9 @@ def c07(tier, seed, work):
     # download) of small programs: 2-4 clients, 1-2 operations each, 1-2 keys, versioned and multipart included
     conc_stage(rep, work, "all-schedules", allsys, [2, 3, 4] if thorough else [2, 3], runs=0, ops=0, keys=2, gated=False,
                sched="thorough" if thorough else "quick", timeout=2400)
+    # the front end's own step structure (existence check / auto-creation / call): atomic on the model without the
+    # auto-bucket option; with it the design is not (F35) -- the code is held to the stepwise design under every schedule
+    core.frontend_stage(rep, work, "front-end-steps", ["mem", "bolt", "multimem"] + (["multios"] if thorough else []))
     # a part uploaded again (large body: looked up, hashed for milliseconds, stored) while a completion naming the old
     # ETags validates and assembles: sweep over the relative start of the two requests
     conc_stage(rep, work, "part-reupload-vs-complete", allsys if thorough else ["mem", "multimem"], [2], runs=0, ops=0, keys=1,
